@@ -128,6 +128,22 @@ func (fr *frame) runDefer(d *deferred) {
 	ok = true
 }
 
+type pendingGoroutine struct {
+	fn   value
+	args []value
+}
+
+// runPendingGoroutines runs the goroutines whose start was deferred (WaitGroup.Wait).
+func (in *Interp) runPendingGoroutines(fr *frame) {
+	for len(in.path.pendingGo) > 0 {
+		g := in.path.pendingGo[0]
+		in.path.pendingGo = in.path.pendingGo[1:]
+		in.inGoroutine++
+		in.call(fr, 0, g.fn, g.args)
+		in.inGoroutine--
+	}
+}
+
 // isControl reports panics that must unwind the whole path without running target defers.
 func isControl(r interface{}) bool {
 	switch r.(type) {
@@ -301,10 +317,16 @@ func visitInstr(fr *frame, instr ssa.Instruction) continuation {
 		// below.) Other schedules are outside the claim; natively the replay is repeated.
 		fn, args := prepareCall(fr, &instr.Call)
 		in.path.goN++
-		in.path.labels["schedule"] = "a goroutine was run to completion where it was started"
-		in.inGoroutine++
-		in.call(fr, instr.Pos(), fn, args)
-		in.inGoroutine--
+		if in.choose(2, "go") == 0 {
+			in.path.labels["schedule"] = "a goroutine ran to completion where it was started"
+			in.inGoroutine++
+			in.call(fr, instr.Pos(), fn, args)
+			in.inGoroutine--
+		} else {
+			// the other extreme: it runs only when somebody waits for it (WaitGroup.Wait)
+			in.path.labels["schedule"] = "a goroutine ran only when it was waited for"
+			in.path.pendingGo = append(in.path.pendingGo, pendingGoroutine{fn, args})
+		}
 	case *ssa.Select:
 		// Non-blocking select whose cases are all sends on unbuffered channels: a case is taken
 		// iff a receiver happens to be waiting at that moment, which depends on the schedule -
